@@ -433,6 +433,24 @@ def matrix_protos():
     j += 1
     mk(alpha_tag('Mq', j), [num('Kind', 'u8'), Field('match', 'Body', key='Kind', pairs=[([1], 'Session'), ([2], 'Beat')]), num('Post', 'u16')],
        subs=[('Session', [Field('ref', 'Beats', packet='Beat', named=True, repeat=True), num('Seq', 'u32')]), ('Beat', [])], options={'ArrayPrefixLenType': 'u8'})
+    # round 7, self-directed (no drill): more corners next to the ones above
+    j = 0
+    j += 1   # u32 key LISTS in the upper half of the unsigned range
+    mk(alpha_tag('Mr', j), [num('MsgType', 'u32'), Field('match', 'Body', key='MsgType', pairs=[([1], 'Logon'), ([4026531840, 4294967295], 'Logout'), ([2147483648], 'Beat')]), num('Post', 'u16')],
+       subs=[('Logon', [dyn('User')]), ('Logout', [num('Code', 'u8')]), ('Beat', [])])
+    j += 1   # length of a string, of a repeated number, of a repeated member
+    mk(alpha_tag('Mr', j), [Field('len', 'TextLen', ntype='u16', target='Text', prefixed=False, typed=True), dyn('Text'), num('Post', 'u16')])
+    j += 1
+    mk(alpha_tag('Mr', j), [Field('len', 'ValsLen', ntype='u32', target='Vals', prefixed=True, typed=True), num('Vals', 'u32', repeat=True), num('Post', 'u16')], options={'LittleEndian': 'true'})
+    j += 1
+    mk(alpha_tag('Mr', j), [num('Pre', 'u8'), Field('len', 'LegsLen', ntype='u16', target='Legs', prefixed=False, typed=True), Field('ref', 'Legs', packet='Leg', named=True, repeat=True), num('Post', 'u16')],
+       subs=[('Leg', [num('Px', 'i64'), dyn('Sym')])])
+    j += 1   # a checksum inside a REPEATED member; a match inside a repeated member
+    mk(alpha_tag('Mr', j), [num('Pre', 'u8'), Field('ref', 'Items', packet='Item', named=True, repeat=True), num('Post', 'u16')],
+       subs=[('Item', [num('V', 'u16'), Field('cksum', 'Check', ntype='u16', algo='CRC16', prefixed=False, typed=True)])])
+    j += 1
+    mk(alpha_tag('Mr', j), [num('Pre', 'u8'), Field('ref', 'Items', packet='Item', named=True, repeat=True), num('Post', 'u16')],
+       subs=[('Item', [num('Kind', 'u8'), Field('match', 'Body', key='Kind', pairs=[([1], 'Logon'), ([2, 3], 'Logout')])]), ('Logon', [dyn('User')]), ('Logout', [num('Code', 'u8')])])
     return out
 
 
